@@ -19,6 +19,8 @@ ID_POOLS = [IDS, IDS, IDS, ['UK', 'US', 'uk', 'us'], ['UK', 'Uk', 'uK', 'uk'], [
 
 
 def _unknown_id(rng, ids):
+    if rng.random() < 0.2:
+        return rng.choice([7, 0, 2.5])  # (an id is any hashable: an unknown one need not be a string)
     cands = ['nope']
     for s_ in ids:
         for v in (s_.lower(), s_.upper(), s_.swapcase(), s_.capitalize(), s_ + '_'):
@@ -124,7 +126,7 @@ def generate(rng, idx, tier, variant):
             op['op'] = 'solve'
         elif r_ < 0.4:
             op['op'] = 'solve_period'
-        if rng.random() < 0.12 and opts['max_iter'] >= 1 and 'nope' not in (select or []):
+        if rng.random() < 0.12 and opts['max_iter'] >= 1 and not any(x not in ids for x in (select or [])):
             # an exception out of user code part-way through the joint iteration (a linker hook, or one submodel's
             # evaluation); nothing is prescribed for that call beyond the frame, but whatever it leaves behind must not
             # show in the next, well-formed call - often the very same call again
